@@ -133,6 +133,8 @@ impl<'a, 'b> Gen<'a, 'b> {
             sig.funcs.push(FuncDecl { name: format!("F{i}"), kind: FKind::Ctor { cost: c, unextractable: unext }, args, out: if i == 0 { Ty::Eq(0) } else { out } });
         }
         if self.cfg.containers {
+            // a second unary S->S constructor (wrapper that rewrites collapse), for the in-place container rebuild shapes
+            sig.funcs.push(FuncDecl { name: "U".into(), kind: FKind::Ctor { cost: None, unextractable: false }, args: vec![Ty::Eq(0)], out: Ty::Eq(0) });
             // constructor wrapping each container so that containers are stored in rows
             for ci in 0..sig.conts.len() {
                 sig.funcs.push(FuncDecl { name: format!("W{ci}"), kind: FKind::Ctor { cost: None, unextractable: false }, args: vec![Ty::Cont(ci)], out: Ty::Eq(0) });
@@ -263,6 +265,18 @@ impl<'a, 'b> Gen<'a, 'b> {
 
     /// a pattern argument of type `ty`; may bind new variables
     fn pat_arg(&mut self, env: &mut Env, ty: &Ty, depth: usize) -> Term {
+        if let Ty::Cont(ci) = ty {
+            // container literal pattern: (vec-of <grounded element patterns>), the #831 shape
+            if depth < 2 && self.src.chance(1, 3) {
+                let decl = self.sig.conts[*ci].clone();
+                let n = 1 + self.src.below(2);
+                let mut elems = vec![];
+                for _ in 0..n {
+                    elems.push(self.grounded_elem(env, &decl.elem, depth + 1));
+                }
+                return Term::Prim(cont_ctor(decl.kind).into(), elems);
+            }
+        }
         let choice = self.src.below(16);
         match choice {
             0..=5 => {
@@ -304,6 +318,43 @@ impl<'a, 'b> Gen<'a, 'b> {
         let v = self.fresh_var();
         env.push((v.clone(), ty.clone()));
         Term::Var(v)
+    }
+
+    /// an element pattern under a container primitive: must be grounded by itself
+    /// (constructor pattern, already bound variable, or constant)
+    fn grounded_elem(&mut self, env: &mut Env, ty: &Ty, depth: usize) -> Term {
+        match ty {
+            Ty::Eq(_) => {
+                if self.src.chance(1, 3) {
+                    if let Some(v) = self.pick_var(env, ty) {
+                        return Term::Var(v);
+                    }
+                }
+                let ctors: Vec<usize> = self.sig.funcs.iter().enumerate().filter(|(_, f)| f.is_ctor() && f.out == *ty && !f.args.is_empty() && f.args.iter().all(|a| !matches!(a, Ty::Cont(_)))).map(|(i, _)| i).collect();
+                if !ctors.is_empty() && depth <= 2 && self.src.chance(3, 4) {
+                    let fi = *self.src.pick(&ctors);
+                    let tys = self.sig.funcs[fi].args.clone();
+                    let args = tys.iter().map(|t| self.pat_arg(env, t, 2)).collect();
+                    return Term::App(fi, args);
+                }
+                let leaves: Vec<Term> = self.pool.iter().filter(|(t, x)| t == ty && x.size() == 1).map(|(_, x)| x.clone()).collect();
+                self.src.pick(&leaves).clone()
+            }
+            Ty::I64 => Term::I(self.src.range(0, 4)),
+            Ty::Bool => Term::B(self.src.bool()),
+            Ty::Cont(ci) => {
+                let decl = self.sig.conts[*ci].clone();
+                if let Some(v) = self.pick_var(env, ty) {
+                    return Term::Var(v);
+                }
+                let n = self.src.below(2);
+                let mut elems = vec![];
+                for _ in 0..n {
+                    elems.push(self.grounded_elem(env, &decl.elem, depth + 1));
+                }
+                Term::Prim(cont_ctor(decl.kind).into(), elems)
+            }
+        }
     }
 
     fn gen_body(&mut self, env: &mut Env, n_atoms: usize) -> (Vec<Fact>, Vec<(usize, Vec<Term>)>) {
@@ -594,7 +645,7 @@ impl<'a, 'b> Gen<'a, 'b> {
             lhs.vars(&mut lv);
             let mut rv = vec![];
             rhs.vars(&mut rv);
-            lv.iter().all(|v| rv.contains(v)) && when.is_empty() && !has_const(&rhs)
+            lv.iter().all(|v| rv.contains(v)) && when.is_empty() && !has_const(&rhs) && !has_prim(&rhs) && !has_prim(&lhs)
         };
         let subsume = self.cfg.subsume && !bi && self.src.chance(1, 3);
         let rs = self.pick_ruleset();
@@ -807,6 +858,73 @@ impl<'a, 'b> Gen<'a, 'b> {
         }
     }
 
+    /// A rule that collapses a wrapper (`(rewrite (U x) x)`), a row holding a container whose element
+    /// contains the wrapper, and a rule whose body is a container literal pattern: the body becomes
+    /// matchable only through the container being rebuilt in place.
+    fn container_scenario(&mut self) -> Vec<Cmd> {
+        let mut cmds = vec![];
+        let find = |sig: &Sig, n: &str| sig.funcs.iter().position(|f| f.name == n);
+        let (Some(u), Some(k)) = (find(&self.sig, "U"), find(&self.sig, "F0")) else { return cmds };
+        // wrappers over a container of S (directly or nested)
+        let ws: Vec<usize> = self.sig.funcs.iter().enumerate().filter(|(_, f)| f.name.starts_with('W')).map(|(i, _)| i).collect();
+        if ws.is_empty() {
+            return cmds;
+        }
+        let w = *self.src.pick(&ws);
+        let Ty::Cont(ci) = self.sig.funcs[w].args[0].clone() else { return cmds };
+        let s0 = Ty::Eq(0);
+        let leaves: Vec<Term> = self.pool.iter().filter(|(t, x)| *t == s0 && x.size() == 1).map(|(_, x)| x.clone()).collect();
+        let leaf = self.src.pick(&leaves).clone();
+        let x = Term::Var("sx".into());
+        // element term with the wrapper somewhere: U(F0(leaf)) or F0(U(leaf))
+        let (elem_ground, elem_pat) = if self.src.bool() {
+            (Term::App(u, vec![Term::App(k, vec![leaf.clone()])]), Term::App(k, vec![x.clone()]))
+        } else {
+            (Term::App(k, vec![Term::App(u, vec![leaf.clone()])]), Term::App(k, vec![x.clone()]))
+        };
+        fn wrap(sig: &Sig, ci: usize, ground: &Term, pat: &Term, extra: &Option<Term>) -> Option<(Term, Term)> {
+            let decl = &sig.conts[ci];
+            let ctor = cont_ctor(decl.kind).to_string();
+            match &decl.elem {
+                Ty::Eq(0) => {
+                    let mut g = vec![ground.clone()];
+                    let mut p = vec![pat.clone()];
+                    if let Some(e) = extra {
+                        g.push(e.clone());
+                        p.push(e.clone());
+                    }
+                    Some((Term::Prim(ctor.clone(), g), Term::Prim(ctor, p)))
+                }
+                Ty::Cont(inner) => {
+                    let (g, p) = wrap(sig, *inner, ground, pat, extra)?;
+                    Some((Term::Prim(ctor.clone(), vec![g]), Term::Prim(ctor, vec![p])))
+                }
+                _ => None,
+            }
+        }
+        let extra = if self.src.chance(1, 3) { Some(self.src.pick(&leaves).clone()) } else { None };
+        let Some((cg, cp)) = wrap(&self.sig, ci, &elem_ground, &elem_pat, &extra) else { return cmds };
+        cmds.push(Cmd::Act(Action::Expr(Term::App(w, vec![cg]))));
+        let rs = None;
+        cmds.push(Cmd::Rewrite { lhs: Term::App(u, vec![x.clone()]), rhs: x.clone(), when: vec![], subsume: false, bi: false, ruleset: rs });
+        self.note_rule(rs, true);
+        let y = Term::Var("sy".into());
+        let rels: Vec<usize> = self.sig.funcs.iter().enumerate().filter(|(_, f)| f.is_rel() && f.args == vec![Ty::Eq(0)]).map(|(i, _)| i).collect();
+        let head = if !rels.is_empty() && self.src.bool() {
+            vec![Action::Expr(Term::App(*self.src.pick(&rels), vec![y.clone()]))]
+        } else {
+            vec![Action::Union(y.clone(), x.clone())]
+        };
+        cmds.push(Cmd::Rule { body: vec![Fact::Eq(y.clone(), Term::App(w, vec![cp]))], head, opts: RuleOpts::default() });
+        self.note_rule(rs, true);
+        if self.src.bool() {
+            cmds.push(Cmd::Sched(Sched::Saturate(vec![Sched::Run { rs: None, until: vec![] }])));
+        } else {
+            cmds.push(Cmd::RunN { rs: None, n: 2 + self.src.below(3), until: vec![] });
+        }
+        cmds
+    }
+
     pub fn gen_prog(&mut self) -> Prog {
         self.gen_sig();
         let n = self.cfg.min_cmds + self.src.below(self.cfg.max_cmds - self.cfg.min_cmds + 1);
@@ -836,6 +954,11 @@ impl<'a, 'b> Gen<'a, 'b> {
                 pending_unions.push(Cmd::Act(Action::Union(a, b)));
             }
         }
+        // phase 0b: in-place container rebuild scenario (#831 / nested dirty-id shapes)
+        if self.cfg.containers && self.src.chance(1, 2) {
+            let sc = self.container_scenario();
+            cmds.extend(sc);
+        }
         // phase 1: populate
         let n_pop = 1 + self.src.below(5);
         for _ in 0..n_pop {
@@ -855,6 +978,14 @@ impl<'a, 'b> Gen<'a, 'b> {
         }
         cmds.extend(pending_unions);
         Prog { sig: self.sig.clone(), cmds }
+    }
+}
+
+fn has_prim(t: &Term) -> bool {
+    match t {
+        Term::Prim(..) => true,
+        Term::App(_, a) => a.iter().any(has_prim),
+        _ => false,
     }
 }
 
